@@ -28,3 +28,52 @@ let () =
       let e = encode_by set (bytes_of_hex s) in
       hex_of_bytes e ^ " " ^ dres_str (uri_decode e));
   reg "uri.dec" (fun [s] -> dres_str (uri_decode (bytes_of_hex s)))
+
+(* sweep <op> <arg|-> <prefix> <depth>: the same enumeration, failure rule and FNV-1a digest as
+   harness/h_quote.cc runSweep, computed from the lines the model handlers print *)
+let ends_with s t =
+  let ls = String.length s and lt = String.length t in
+  ls >= lt && String.sub s (ls - lt) lt = t
+let hex_of_string (s : string) : string =
+  if s = "" then "-" else String.concat "" (List.init (String.length s) (fun i -> Printf.sprintf "%02x" (Char.code s.[i])))
+let c_prefix (s : string) : string =
+  match String.index_opt s '\000' with Some k -> String.sub s 0 k | None -> s
+let string_of_hex h =
+  if h = "-" then "" else String.init (String.length h / 2) (fun i -> Char.chr (hexval h.[2*i] * 16 + hexval h.[2*i+1]))
+
+let () =
+  reg "sweep" (fun [op; arg; prefix; depth] ->
+      let depth = int_of_string depth in
+      let prefix = string_of_hex prefix in
+      let f = Hashtbl.find handlers op in
+      let two = (op = "esc" || op = "uri.rt") in
+      let h = ref 0xcbf29ce484222325L in
+      let feed c = h := Int64.mul (Int64.logxor !h (Int64.of_int c)) 0x100000001b3L in
+      let n = ref 0 and fail = ref 0 and failpct = ref 0 and first = ref "none" in
+      let inp = Bytes.of_string (prefix ^ String.make depth '\000') in
+      let idx = Array.make depth 0 in
+      let continue = ref true in
+      while !continue do
+        for k = 0 to depth - 1 do Bytes.set inp (String.length prefix + k) (Char.chr idx.(k)) done;
+        let s = Bytes.to_string inp in
+        let hex = hex_of_string s in
+        let line = f (if two then [arg; hex] else [hex]) in
+        String.iter (fun c -> feed (Char.code c)) line;
+        feed 10;
+        incr n;
+        let bad =
+          if op = "uri.rt" then not (ends_with line (" ok " ^ hex))
+          else if op = "esc" then
+            (match String.split_on_char ' ' line with
+             | [_; "ok"; got; _] -> got <> hex_of_string (c_prefix s)
+             | _ -> true)
+          else false in
+        if bad then begin
+          if String.contains s '%' then incr failpct else incr fail;
+          if !first = "none" then first := hex
+        end;
+        let k = ref (depth - 1) in
+        while !k >= 0 && idx.(!k) = 255 do idx.(!k) <- 0; decr k done;
+        if !k < 0 then continue := false else idx.(!k) <- idx.(!k) + 1
+      done;
+      Printf.sprintf "n=%d fail=%d failpct=%d first=%s h=%016Lx" !n !fail !failpct !first !h)
